@@ -466,8 +466,10 @@ def run(tier, is_known):
     na, nb = (5, 3) if thorough else (3, 1)
     inst_items = []
     for pair in (PAIRS if thorough else ("same", "nmne-off-in-B", "no-nmne-section-in-B", "other-topology", "stochastic")):
-        for order in interleavings(na + 2, nb + 3):
-            inst_items.append((pair, order, na, nb))
+        # B must live long enough to see malicious traffic of its own when B is the possible victim
+        nbp = max(nb, 3) if pair == "no-nmne-section-in-B" else nb
+        for order in interleavings(na + 2, nbp + 3):
+            inst_items.append((pair, order, na, nbp))
     n_inter = len(inst_items)
     for item, (n, v) in engine.pmap("c04-instance", instance_item, inst_items, chunksize=4):
         steps += n
